@@ -7,7 +7,7 @@ time grids {uniform, quadratic, geometric, seeded random (with one repeated inst
 {constant, stepwise decreasing, seeded random below p_i}.  quick: seeded sub-sample (about 100 runs) that always
 contains p_f/p_i = 0.9875 and 0.999 on the very-large-step grid; thorough: the full product, nx = 400 on short grids.
 
-Clauses (tolerance tol = 1e-9 * (m_i - min m_f); ideal reservoir: tol = 1e-9):
+Clauses (tolerance tol = 1e-9 * (m_i - min m_f) + 1e-10 * max(|m_i|, 1); ideal reservoir: m_f = 0, m_i = 1):
   finite        no NaN / inf in the field
   bounds.lower  pp[i, j] >= min_{s<=i} m_f[s] - tol          (ideal: pp >= -tol)
   bounds.upper  pp[i, j] <= m_i + tol                        (ideal: pp <= 1 + tol)
@@ -34,8 +34,10 @@ GRIDS = ("uniform", "quadratic", "geometric", "random", "big50")
 SCHEDULES = ("constant", "stepdown", "random")
 TABLES = ("gas", "haynesville", "syn_rising", "syn_kinked")
 P_INITIAL = {"gas": 8000.0, "haynesville": 12000.0, "syn_rising": 8000.0, "syn_kinked": 8000.0, "syn_const": 8000.0}
-REL_TOL = 1e-9
+REL_TOL = 1e-9  # of the drawdown m_i - min m_f
+ABS_TOL = 1e-10  # times max(|m_i|, 1): rounding of the linear solve, which does not shrink with the drawdown
 STEADY_TOL = 1e-6
+TOL_TEXT = "tol = %g*(m_i - min m_f) + %g*max(|m_i|, 1)" % (REL_TOL, ABS_TOL)
 
 _cache = {}
 
@@ -65,7 +67,7 @@ def table_params(name):
     if name == "haynesville":
         return {"file": DATA + "pvt_gas_HAYNESVILLE SHALE_20.csv", "rename": {"Density": "density"}}
     if name.startswith("syn_"):
-        return {"synthetic": name, "n": 400, "p_lo": 10.0, "p_hi": 10000.0, "doc": synthetic_alpha_table.__doc__}
+        return {"synthetic": name, "n": 400, "p_lo": 10.0, "p_hi": 10000.0, "formula": "pseudopressure = p**2; rising: alpha = 1 + 9 (p/p_hi)**2; kinked: alpha = 5 - 4 p/p_k (p < p_k = 0.6 p_hi), 1 + 8 (p - p_k)/(p_hi - p_k) above; const: alpha = 3"}
     raise KeyError(name)
 
 
@@ -178,24 +180,24 @@ def evaluate(inp):
     if not finite:
         return out
     draw = m_i - float(m_f.min())
-    tol = REL_TOL * draw
+    lim = REL_TOL + ABS_TOL * max(abs(m_i), 1.0) / draw  # tolerance in units of the drawdown
     low = np.minimum.accumulate(m_f)
     d = (low[:, None] - pp) / draw
     i, j = np.unravel_index(np.argmax(d), d.shape)
-    out["bounds.lower"] = (bool(d[i, j] <= REL_TOL), {"worst_excess_over_drawdown": float(d[i, j]), "at": [int(i), int(j)], "pp": float(pp[i, j]), "bound": float(low[i])},
-                           "pp[i,j] >= min_{s<=i} m_f[s] - %g*(m_i - min m_f)" % REL_TOL)
+    out["bounds.lower"] = (bool(d[i, j] <= lim), {"worst_excess_over_drawdown": float(d[i, j]), "at": [int(i), int(j)], "pp": float(pp[i, j]), "bound": float(low[i])},
+                           "pp[i,j] >= min_{s<=i} m_f[s] - tol, " + TOL_TEXT)
     d = (pp - m_i) / draw
     i, j = np.unravel_index(np.argmax(d), d.shape)
-    out["bounds.upper"] = (bool(d[i, j] <= REL_TOL), {"worst_excess_over_drawdown": float(d[i, j]), "at": [int(i), int(j)], "pp": float(pp[i, j]), "bound": m_i},
-                           "pp[i,j] <= m_i + %g*(m_i - min m_f)" % REL_TOL)
+    out["bounds.upper"] = (bool(d[i, j] <= lim), {"worst_excess_over_drawdown": float(d[i, j]), "at": [int(i), int(j)], "pp": float(pp[i, j]), "bound": m_i},
+                           "pp[i,j] <= m_i + tol, " + TOL_TEXT)
     constant = inp["reservoir"] == "ideal" or inp["schedule"]["kind"] == "constant"
     if constant:
         d = (pp[:, :-1] - pp[:, 1:]) / draw
         i, j = np.unravel_index(np.argmax(d), d.shape)
-        out["mono.space"] = (bool(d[i, j] <= REL_TOL), {"worst_excess_over_drawdown": float(d[i, j]), "at": [int(i), int(j)]}, "pp[i,j] <= pp[i,j+1] + tol (constant schedule)")
+        out["mono.space"] = (bool(d[i, j] <= lim), {"worst_excess_over_drawdown": float(d[i, j]), "at": [int(i), int(j)]}, "pp[i,j] <= pp[i,j+1] + tol (constant schedule), " + TOL_TEXT)
         d = (pp[1:, 1:] - pp[:-1, 1:]) / draw
         i, j = np.unravel_index(np.argmax(d), d.shape)
-        out["mono.time"] = (bool(d[i, j] <= REL_TOL), {"worst_excess_over_drawdown": float(d[i, j]), "at": [int(i), int(j) + 1]}, "pp[i+1,j] <= pp[i,j] + tol for j >= 1 (constant schedule)")
+        out["mono.time"] = (bool(d[i, j] <= lim), {"worst_excess_over_drawdown": float(d[i, j]), "at": [int(i), int(j) + 1]}, "pp[i+1,j] <= pp[i,j] + tol for j >= 1 (constant schedule), " + TOL_TEXT)
         if inp["grid"]["kind"] == "big50":
             d = np.abs(pp[-1] - m_f[-1]) / draw
             out["steady"] = (bool(d.max() <= STEADY_TOL), {"max_distance_over_drawdown": float(d.max()), "node": int(np.argmax(d))},
@@ -203,13 +205,40 @@ def evaluate(inp):
     return out
 
 
+def feed(B, records, priority=()):
+    """records: (clause, key, ok, info).  Bounded keeps the first 5 violations only; feed one failing case per clause
+    first (clauses in `priority` order, then the others; a finding key makes its own group), then the unkeyed failures,
+    so that no clause and no keyed family can crowd another out of the report."""
+    order = {c: n for n, c in enumerate(priority)}
+    first, seen = [], set()
+    for rec in sorted((r for r in records if not r[2]), key=lambda r: order.get(r[0], len(order))):
+        group = (rec[0], rec[3].get("finding_key"))
+        if group not in seen:
+            seen.add(group)
+            first.append(rec)
+    ids = {id(r) for r in first}
+    rest = [r for r in records if id(r) not in ids]
+    rest.sort(key=lambda r: (r[2], bool(r[3].get("finding_key"))))  # unkeyed failures, keyed failures, then passes (stable)
+    for clause, key, ok, info in first + rest:
+        B.case(clause, key, ok, **info)
+    # a keyed (known-finding) family is reported once
+    kept, keyed = [], set()
+    for v in B.violations:
+        if v.get("key"):
+            if v["key"] in keyed:
+                continue
+            keyed.add(v["key"])
+        kept.append(v)
+    B.violations = kept
+
+
 # ---------------------------------------------------------------------------------------------------- family
 def _nt(grid, nx, tier):
     if grid == "big50":
         return 20
     if nx >= 400:
-        return 30  # nx = 400 only on short grids
-    return 40 if tier == "quick" else 120
+        return 30 if tier == "quick" else 60  # nx = 400 only on short grids
+    return 40 if tier == "quick" else 300
 
 
 def family(tier, seed):
@@ -245,16 +274,24 @@ def run(ctx):
     quick = ctx.tier == "quick"
     runs = family(ctx.tier, ctx.seed)
     B = Bounded("real simulate() runs: tables {gas, Haynesville, synthetic rising, synthetic kinked} + ideal; p_f/p_i in %s; nx in %s; grids %s; schedules %s; %s; "
-                "tolerance %g*(m_i - min m_f), steady %g" % (list(RATIOS), list(NXS), list(GRIDS), list(SCHEDULES),
+                "%s, steady %g" % (list(RATIOS), list(NXS), list(GRIDS), list(SCHEDULES),
                                                              "seeded sub-sample of %d runs incl. every (table, nx) at p_f/p_i in {0.9875, 0.999} on the 20x50 grid" % len(runs) if quick
-                                                             else "full product, %d runs" % len(runs), REL_TOL, STEADY_TOL))
+                                                             else "full product, %d runs" % len(runs), TOL_TEXT, STEADY_TOL))
+    records = []
     for inp in runs:
         key = run_key(inp)
         for clause, (ok, observed, required) in evaluate(inp).items():
-            B.case(clause, key, ok, input=dict(inp, clause=clause), observed=observed, required=required)
+            info = {"input": dict(inp, clause=clause), "observed": observed, "required": required}
+            if clause == "mono.time" and not ok and inp["reservoir"] == "single" and inp["grid"]["kind"] == "random" and inp["schedule"]["kind"] == "constant":
+                # SinglePhaseReservoir, seeded random grid, constant schedule: the frac-face row makes node 0 depend on the step
+                # size; keyed so that a known-finding entry can match exactly this family and nothing else
+                info["finding_key"] = "random-grid:single"
+            records.append((clause, key, ok, info))
+    feed(B, records, priority=("finite", "bounds.lower", "bounds.upper", "mono.space", "steady", "mono.time"))
     r = B.result()
+    r["failed_per_clause"] = {c: sum(1 for x in records if x[0] == c and not x[2]) for c in sorted({x[0] for x in records if not x[2]})}
     r["runs"] = len(runs)
-    r["tolerances"] = {"bounds/mono": "%g * (m_i - min m_f)" % REL_TOL, "steady": "%g * (m_i - m_f)" % STEADY_TOL}
+    r["tolerances"] = {"bounds/mono": TOL_TEXT, "steady": "%g * (m_i - m_f)" % STEADY_TOL}
     return r
 
 
